@@ -339,6 +339,34 @@ def relocate (base fpath : Str) : Str :=
   | some c => b ++ '/' :: norm.drop c
   | none => b ++ '/' :: norm.drop (norm.length - 1)
 
+/-! ### look-up sessions: the layout's look-ups and the state the classes carry -/
+
+/-- `isdir(join(path, 'derivatives', derivative))` on a listed tree: some file lives below it -/
+def derivativeDirExists (files : List Str) (derivative : Str) : Bool :=
+  files.any (fun f => (natToStr dfDerivDir ++ '/' :: derivative ++ ['/']).isPrefixOf f)
+
+def lk : Lookups where
+  parse := bidsParse
+  metaFor := findMetaFor
+  eventsFor := findEventsFor
+  tableSibling := findTableSiblingOf
+  mriSibling := findMriSiblingOf
+  tableKey := findTableKeyFor
+  derivativeFiles := fun files d desc tasks =>
+    if derivativeDirExists files d then .ok (findDerivativeFiles files d desc tasks)
+    else .error "ValueError"
+
+/-- every attribute a `BidsLayout` ever assigns to itself (sorted) -/
+def layoutFields : List Str := natToList stLayoutFields
+/-- the attributes `BidsFile.__init__` / `BidsJsonFile.__init__` assign besides the entities -/
+def fileFields : List Str := natToList stFileFields
+def jsonFields : List Str := natToList stJsonFields
+/-- the attributes an `FmriprepRun` assigns to itself -/
+def runFields : List Str := natToList stRunFields
+/-- where the two caches live: `self._meta` on the file asked, `self._data` on its sidecar -/
+def metaCacheOwner : Str := natToStr stMetaCache
+def dataCacheOwner : Str := natToStr stDataCache
+
 end Src
 
 end Rsa.Importers
